@@ -340,12 +340,21 @@ Definition provides (c : dctx) (sel : string) : bool :=
   | Some (root, _) => match follow root (tl (split_dot sel)) [] with Some _ => true | None => false end
   | None => false
   end.
+(* repaired code (second repair): "known" is decided by the parse context ALONE when it has dynamic registration enabled
+   (the name resolves through the file's own imports), and by the registry alone otherwise: what other files or decorators
+   registered does not make a name known in a file with dynamic registration, it would still be a NameError when applied *)
+Definition known_dyn (reg : list centry) (c : dctx) (sel : string) : bool :=
+  if c_dynamic c then provides c sel else reg_matches reg sel.
 Definition should_skip_dyn (sk : dskip) (reg : list centry) (c : dctx) (sel : string) : bool :=
-  if reg_matches reg sel || provides c sel then false else dsk_covers sk sel.
-(* the code before the repair consulted the registry only: under dynamic registration a name that is merely not registered
-   YET was dropped *)
+  if known_dyn reg c sel then false else dsk_covers sk sel.
+(* the code before the first repair (F12) consulted the registry only: under dynamic registration a name that is merely not
+   registered YET was dropped *)
 Definition should_skip_dyn_orig (sk : dskip) (reg : list centry) (c : dctx) (sel : string) : bool :=
   if reg_matches reg sel then false else dsk_covers sk sel.
+(* the code between the two repairs: registry match OR provided.  Under dynamic registration a name the file's imports do
+   not provide counted as known when something else had registered that spelling: not skipped, then a NameError *)
+Definition should_skip_dyn_orig2 (sk : dskip) (reg : list centry) (c : dctx) (sel : string) : bool :=
+  if reg_matches reg sel || provides c sel then false else dsk_covers sk sel.
 
 (* one parse with skip_unknown; [skipf] is the skip decision (should_skip_dyn, or the original one).
    Each statement that is not skipped is executed by run_stmts on the singleton list.  A reference value is parsed —
